@@ -415,6 +415,28 @@ pub fn mutants(g: &mut Rng, b: &Base, secrets: &HashMap<String, String>) -> Vec<
             push(if b.payload == UNSIGNED { "body/truncated/unsigned-payload" } else { "body/truncated/signed-payload" }, r);
         }
     }
+    // bytes added to the body (also to an empty one), with the Content-Length header brought up to date, left
+    // stale, or absent (a streamed body of unknown length): under a signed digest every one of them is another payload
+    if (base.method == "PUT" || base.method == "POST") && !b.signed.iter().any(|s| s == "content-length") {
+        let mode = if b.payload == UNSIGNED { "unsigned-payload" } else { "signed-payload" };
+        let n_extra = 1 + g.usize_below(40);
+        let extra = g.bytes(n_extra);
+        let mut r = base.clone();
+        r.body.extend_from_slice(&extra);
+        r.set_header("content-length", &r.body.len().to_string());
+        push(&format!("body/appended/{mode}"), r);
+        let mut r = base.clone();
+        r.body.extend_from_slice(&extra);
+        r.headers.retain(|(k, _)| !k.eq_ignore_ascii_case("content-length"));
+        r.framing = Some(Framing { cuts: vec![r.body.len() / 2], ..Default::default() });
+        push(&format!("body/appended-no-content-length/{mode}"), r);
+        if base.body.is_empty() {
+            let mut r = base.clone();
+            r.body.extend_from_slice(&extra);
+            r.framing = Some(Framing::default());
+            push(&format!("body/injected-with-stale-content-length-0/{mode}"), r);
+        }
+    }
     {
         let mut r = base.clone();
         let new = if b.payload == UNSIGNED { sha256_hex(&base.body) } else { UNSIGNED.to_owned() };
@@ -678,7 +700,7 @@ pub fn run(ctx: &RunCtx) -> i32 {
         exhaustive: false,
     };
     let secrets = secrets(ctx.seed);
-    let n_base = ctx.tier.sz(8000, 400_000);
+    let n_base = ctx.tier.sz(40_000, 3_000_000);
     let per = 25u64;
     let total = par_run(ctx.workers, n_base.div_ceil(per), |j, r| {
         let rt = new_runtime();
